@@ -625,7 +625,8 @@ spifopt_parse(int argc, char *argv[])
                                        : ""))));
                 }
                 CHECK_BAD();
-                continue;
+                /* Nothing more can follow an option whose value is missing; move on or this never ends. */
+                NEXT_ARG();
             }
             /* Also make sure we know what to do with the value. */
             if (!SPIFOPT_OPT_VALUE(j)) {
